@@ -76,6 +76,18 @@ static inline size_t cm_next(const uint8_t *d, size_t n, size_t o)
 #define PTYPE(mt, b)        ((((uint32_t)(uint8_t)(mt)) << 8) | (uint32_t)B(b, 13))      /* payload kind of the message at b in a frame of message type mt */
 #define FRAME_IS_CMP(d, n)  ((d) != 0 && (n) >= 8 && B(d, 0) != 0)
 
+/* capture-module builder: length field of a string of n characters (counts the NUL, rounded up to even) and field offsets from the arguments */
+#define STR_L(n)  (((size_t)(n) + 1) + (((size_t)(n) + 1) & 1))
+#define CMB_O2    (28 + STR_L(deviceDescription.n))
+#define CMB_O3    (CMB_O2 + 2 + STR_L(serialNumber.n))
+#define CMB_O4    (CMB_O3 + 2 + STR_L(hardwareVersion.n))
+#define CMB_O5    (CMB_O4 + 2 + STR_L(softwareVersion.n))
+
+/* history of byte k of a byte vector (index 0 if k is outside the old contents; the clause using it guards k < old n) */
+#define OLDB(PD, k)  __CPROVER_old((PD).d[(k) & -(size_t)((k) < (PD).n)])
+/* capture-module builder: size of the intermediate buffer (header, five length fields, the strings, vendor data, up to 8 padding bytes) */
+#define CMB_MAXSIZE (26 + 10 + deviceDescription.n + serialNumber.n + hardwareVersion.n + softwareVersion.n + vendorData->n + 8)
+
 /* a pointer/length view lies inside the payload buffer [d, d+n) */
 #define VIEW_IN(p, len, d, n) ((len) == 0 || (__CPROVER_same_object((p), (d)) && __CPROVER_POINTER_OFFSET(p) >= 0 && (size_t)__CPROVER_POINTER_OFFSET(p) + (len) <= (n)))
 
